@@ -141,6 +141,9 @@ func runC16(ctx *Ctx) {
 		pg.add(sb.String(), strings.Join(parts, " "), map[string]interface{}{"ops": ops})
 	}
 	pp := pathPagingCorr(ctx, ctx.pick(1500, 40000))
+	tc, lc := termsCorr(ctx, ctx.pick(4000, 100000))
+	tc.run(ctx)
+	lc.run(ctx)
 	pn.run(ctx)
 	pv.run(ctx)
 	pg.run(ctx)
